@@ -54,6 +54,11 @@ pub fn c01(ctx: &mut Ctx) {
             ctx.case(&format!("{name}/{}", entry_text(&e)), &|| format!("decode-message {} {}", hexz(b), entry_text(&e)), || check_msg(b, &e));
         }
     }
+    for (name, b) in &mutated_corpus() {
+        for e in [Some(STRICT), Some(NONE)] {
+            ctx.case(&format!("{name}/{}", entry_text(&e)), &|| format!("decode-message {} {}", hexz(b), entry_text(&e)), || check_msg(b, &e));
+        }
+    }
     // every flag word in front of a control-shaped and a data-shaped remainder
     let tails: [&[u8]; 3] = [&[0, 12, 0, 1, 0, 2, 0, 3, 0, 4], &[0, 9, 0, 1, 0, 2, 0xaa], &[0, 20, 0, 1, 0, 2, 0, 3, 0, 4, 0, 8, 0, 0, 0, 0, 0, 1]];
     for w in 0..=65535u16 {
@@ -85,29 +90,7 @@ pub fn c01(ctx: &mut Ctx) {
     }
     maxb.extend(rec(11, &pat(37, 1)));
     large.push(("ctl-65535".into(), control_wire(W_CONTROL, 65535, [1, 2, 3, 4], &maxb)));
-    // data messages whose offset size is close to the 16-bit maximum, with that many pad octets really present
-    // flag word in the crate's numbering: T = 0x0100, L = 0x0200, S = 0x1000, O = 0x4000, version nibble 0x0020
-    for (wname, word) in [("lo", 0x4220u16), ("lso", 0x5220), ("o", 0x4020), ("so", 0x5020)] {
-        for off in [65500u16, 65522, 65526, 65530, 65535] {
-            for length in [100u16, 65535] {
-                let mut b = word.to_be_bytes().to_vec();
-                if word & 0x0200 != 0 {
-                    b.extend(length.to_be_bytes());
-                }
-                b.extend([0, 1, 0, 2]);
-                if word & 0x1000 != 0 {
-                    b.extend([0, 3, 0, 4]);
-                }
-                b.extend(off.to_be_bytes());
-                b.extend(std::iter::repeat(0u8).take(off as usize));
-                b.extend(pat(200, 7));
-                large.push((format!("data-{wname}-off{off}-len{length}"), b));
-                if word & 0x0200 == 0 {
-                    break;
-                }
-            }
-        }
-    }
+    large.extend(large_offset_datas());
     for (name, b) in &large {
         for e in entries_few() {
             ctx.case(&format!("{name}/{}", entry_text(&e)), &|| format!("decode-message {} {}", hexz(b), entry_text(&e)), || check_msg(b, &e));
@@ -367,6 +350,11 @@ pub fn c05(ctx: &mut Ctx) {
             ctx.case(&format!("{name}/{}", entry_text(&e)), &|| format!("decode-message {} {}", hexz(b), entry_text(&e)), || check(b, &e));
         }
     }
+    for (name, b) in mutated_corpus().iter().chain(large_offset_datas().iter()) {
+        for e in [Some(STRICT), Some(NONE)] {
+            ctx.case(&format!("{name}/{}", entry_text(&e)), &|| format!("decode-message {} {}", hexz(b), entry_text(&e)), || check(b, &e));
+        }
+    }
     // every 16-bit code of the enumerated payload fields, and every attribute number
     for x in 0..=65535u16 {
         let mut err = vec![0, 1];
@@ -564,6 +552,7 @@ pub fn c08(ctx: &mut Ctx) {
     let suffixes: Vec<Vec<u8>> = vec![vec![0], vec![0xff], vec![0; 6], rec(9, &[0, 1]), control_ok(&rec(0, &[0, 1])), pat(20, 1), vec![0xff; 40]];
     let mut corpus = message_corpus();
     corpus.extend(control_single_avp_corpus().into_iter().step_by(5));
+    corpus.extend(large_offset_datas());
     for (name, b) in &corpus {
         for e in [Some(NONE), Some(STRICT)] {
             let Some(extent) = declared_extent(b, &e) else { continue };
